@@ -290,6 +290,35 @@ def replay_file(ctx, payload):
     return p
 
 
+def run_tlapm(ctx, module, subst=None, timeout=900):
+    """Check the proofs of spec/<module>.tla with the TLA+ proof system in a scratch copy of spec/ (tlapm leaves a cache behind).
+    subst: (old, new) applied to the module text (negative controls).  -> (all proved, number of obligations, number failed, output tail)"""
+    ctx.ntlc += 1
+    d = os.path.join(ctx.work, "tlapm%d_%s" % (ctx.ntlc, module))
+    os.makedirs(d)
+    for f in os.listdir(SPEC):
+        if f.endswith(".tla"):
+            shutil.copy(os.path.join(SPEC, f), d)
+    if subst:
+        t = open(os.path.join(d, module + ".tla")).read()
+        if subst[0] not in t:
+            raise Broken("tlapm control: text to replace not found in " + module)
+        open(os.path.join(d, module + ".tla"), "w").write(t.replace(subst[0], subst[1]))
+    t0 = time.time()
+    try:
+        p = subprocess.run(["tlapm", "--threads", str(max(2, NCPU // 2)), module + ".tla"], cwd=d, stdout=subprocess.PIPE, stderr=subprocess.STDOUT, text=True, timeout=timeout)
+        out = p.stdout
+    except subprocess.TimeoutExpired as e:
+        raise Broken("tlapm timed out on " + module)
+    m = re.search(r"All (\d+) obligations? proved", out)
+    f = re.search(r"(\d+)/(\d+) obligations? failed", out)
+    ctx.cov["tlc_runs"].append({"module": module, "cfg": "tlapm" + (" (control: %s -> %s)" % subst if subst else ""), "generated": int(m.group(1)) if m else (int(f.group(2)) if f else 0),
+                                "distinct": 0, "wall_s": round(time.time() - t0, 1), "simulate": "", "result": "proved" if m else ("%s obligations failed" % f.group(1) if f else "error")})
+    if not m and not f:
+        raise Broken("tlapm gave no verdict on %s:\n%s" % (module, out[-1500:]))
+    return bool(m), int(m.group(1)) if m else int(f.group(2)), 0 if m else int(f.group(1)), out[-800:]
+
+
 def violation(ctx, what, payload):
     """Record a violation reproduced on the real code, unless an open known finding names it."""
     key = payload.get("finding_key")
